@@ -70,6 +70,10 @@ type Driver struct {
 	HadUpdate  bool
 	Emptied    bool // tree was non-empty and became empty at some point
 	LastRoot   *mast.Root
+	// earlier persisted versions kept so that the history can travel back to them
+	oldRoots  []*mast.Root
+	oldModels []*kinds.Model
+	WReopen   int
 	lowTarget  int
 	hiTarget   int
 	growing    bool
@@ -82,7 +86,7 @@ func NewDriver(c *fw.C, id string, cfg kinds.Cfg, poolSize int) *Driver {
 	r := c.R.Fork()
 	e := kinds.NewEnv(cfg)
 	d := &Driver{C: c, E: e, R: r, ID: id, Judge: id == "C01", M: kinds.NewModel(cfg.KK),
-		WPersist: 4, WReload: 3, WClone: 3}
+		WPersist: 4, WReload: 3, WClone: 3, WReopen: 2}
 	d.Pool = cfg.KK.Pool(r, cfg.BF, poolSize)
 	t, err := e.New()
 	if err != nil {
@@ -236,7 +240,7 @@ func (d *Driver) Step() {
 		{wIns, d.OpInsertNew}, {8, d.OpUpdate}, {3, d.OpReinsertSame},
 		{wDel, d.OpDeletePresent}, {3, d.OpDeleteAbsent}, {3, d.OpDeleteWrong},
 		{6, d.OpGetPresent}, {5, d.OpGetAbsent}, {2, d.OpIter},
-		{d.WClone, d.OpCloneSwitch}, {d.WPersist, d.OpPersist}, {d.WReload, d.OpReload},
+		{d.WClone, d.OpCloneSwitch}, {d.WPersist, d.OpPersist}, {d.WReload, d.OpReload}, {d.WReopen, d.OpReopenOld},
 	}
 	tot := 0
 	for _, o := range ops {
@@ -425,6 +429,13 @@ func (d *Driver) Persist() *mast.Root {
 	}
 	d.HadPersist = true
 	d.LastRoot = root
+	if len(d.oldRoots) < 6 {
+		d.oldRoots = append(d.oldRoots, root)
+		d.oldModels = append(d.oldModels, d.M.Clone())
+	} else {
+		i := d.R.Intn(len(d.oldRoots))
+		d.oldRoots[i], d.oldModels[i] = root, d.M.Clone()
+	}
 	d.C.Obs("op_persist", 1)
 	if d.OnRoot != nil {
 		d.OnRoot(d, root)
@@ -469,6 +480,25 @@ func (d *Driver) OpReload() {
 	d.HadReload = true
 	d.Reloads++
 	d.C.Obs("op_reload", 1)
+}
+
+// OpReopenOld abandons the live tree and continues on an EARLIER persisted
+// version, re-opened from its kept root (through the same store and cache).
+func (d *Driver) OpReopenOld() {
+	if len(d.oldRoots) == 0 {
+		return
+	}
+	i := d.R.Intn(len(d.oldRoots))
+	d.log("reopen earlier root #%d (%d entries)", i, d.oldModels[i].Len())
+	t, err := d.E.Load(d.oldRoots[i])
+	if err != nil {
+		d.fail("reopen", nil, "LoadMast of an earlier persisted root failed: %v", err)
+		return
+	}
+	d.T = t
+	d.M = d.oldModels[i].Clone()
+	d.HadReload = true
+	d.C.Obs("op_reopen_old", 1)
 }
 
 func deepCopy(v interface{}) interface{} {
